@@ -390,6 +390,8 @@ def failing_calls():
         ("f.join(3)", lambda f: f.join(3)), ("f.join([f, 3, f])", lambda f: f.join([f, 3, f])), ("f.join(generator that raises)", lambda f: f.join(x for x in [f, "k", 1 // 0])),
         ("width_aware_splitlines(0)", lambda f: list(f.width_aware_splitlines(0))), ("width_aware_slice('a')", lambda f: f.width_aware_slice("a")),
         ("width_aware_splitlines(2) of an unrenderable value", lambda f: list(bad().width_aware_splitlines(2))), ("half a wrap of f then an error", lambda f: [next(f.width_aware_splitlines(3)), 1 // 0]),
+        ("linesplit of a value whose whitespace cannot be rendered", lambda f: linesplit(FmtStr(Chunk("alpha beta"), Chunk(" ", {"fg": 91}), Chunk("gamma"), Chunk("  ", {"fg": 91}), Chunk("d")), 40)),
+        ("ljust of a value with an unrenderable shared attribute", lambda f: str(FmtStr(Chunk("ab", {"fg": 91})).ljust(5))),
         ("linesplit(f, 0)", lambda f: linesplit(f, 0)), ("linesplit(3, 5)", lambda f: linesplit(3, 5)), ("linesplit(f, 'a')", lambda f: linesplit(f, "a")),
         ("fmtstr(3)", lambda f: fmtstr(3)), ("fmtstr(f, 'nocolor')", lambda f: fmtstr(f, "nocolor")), ("fmtstr(f, 'red', fg='blue')", lambda f: fmtstr(f, "red", fg="blue")),
         ("copy_with_new_atts(fg='nocolor') rendered", lambda f: str(f.copy_with_new_atts(fg="nocolor"))), ("f[0] = 'x'", lambda f: f.__setitem__(0, "x")), ("f.ljust('a')", lambda f: f.ljust("a")),
